@@ -31,7 +31,7 @@ type boolCase struct {
 	msgs    []string
 }
 
-var oracleOnlyRe = regexp.MustCompile(`\b(w\.g|fa\[|mc|mc2)\b|\bfa\[`)
+var oracleOnlyRe = regexp.MustCompile(`\b(mc|mc2)\b|\bfa\[`)
 
 var simplifyRe = regexp.MustCompile("^can simplify `(.*)` to `(.*)`$")
 
